@@ -378,32 +378,45 @@ def parse_c_line(line):
     return cid, steps
 
 def handle_classes(steps, items):
-    """slot -> handle class at each step, from the H<k> items the implementation printed; returns the steps with
-    slots replaced by handle values (None when the implementation output cannot be used)"""
+    """slot -> handle value at each step, from the H<k> items the implementation printed.  Returns
+    (model steps with slots replaced by handle values, kept (step, item) pairs, slot -> handle of the live slots,
+    handle values of creates whose constructor threw), or None when the implementation output cannot be used.
+
+    A create whose C++ constructor throws returns no handle: the exception (kind) is compared with the C++
+    constructor on the same contents (the model step gets a fresh handle value that is never used); the later
+    steps of the program on that slot are not executed by the driver (item NOHANDLE) and are dropped here."""
     if items is None or len(items) != len(steps): return None
-    cur = {}; out = []; fresh = 1000
+    cur = {}; dead = set(); out = []; kept = []; thrown = []; fresh = 1000
     for s, it in zip(steps, items):
         op = s[0]
         if op in ("fi", "fd"): continue
-        if op in ("wi", "wv", "wx"): out.append(s); continue
+        if op in ("wi", "wv", "wx"): out.append(s); kept.append((s, it)); continue
         if op in ("pc", "ac", "sc"):
-            m = re.match(r"H(\d+)$", it)
-            if m: h = int(m.group(1))
-            else: fresh += 1; h = fresh
-            s2 = list(s)
+            s2 = list(s); cur.pop(s[1], None); dead.discard(s[1])
             if op != "pc" and s[7] is not None:
+                if s[7] in dead:
+                    if it != "NOHANDLE": return None
+                    dead.add(s[1]); continue
                 if s[7] not in cur: return None
                 s2[7] = cur[s[7]]
-            cur[s[1]] = h; s2[1] = h; out.append(tuple(s2)); continue
+            m = re.match(r"H(\d+)$", it)
+            if m: h = int(m.group(1)); cur[s[1]] = h
+            elif it.startswith("EXC"): fresh += 1; h = fresh; dead.add(s[1]); thrown.append(h)
+            else: return None
+            s2[1] = h; out.append(tuple(s2)); kept.append((s, it)); continue
+        if s[1] in dead:
+            if it != "NOHANDLE": return None
+            continue
         if s[1] not in cur: return None
-        s2 = list(s); s2[1] = cur[s[1]]; out.append(tuple(s2))
+        s2 = list(s); s2[1] = cur[s[1]]; out.append(tuple(s2)); kept.append((s, it))
         if op in ("pd", "ad", "sd"): del cur[s[1]]
-    return out, cur
+    return out, kept, cur, thrown
 
 def split_items(payload):
     """'a ; b ; c | live 1 2 [| LEAK]' -> (items, live list, leak flag)"""
-    if payload is None or payload.startswith(("CRASH", "EXC", "UNSUPPORTED")): return None, None, False
+    if payload is None or payload.startswith(("CRASH", "UNSUPPORTED")): return None, None, False
     parts = payload.split(" | ")
+    if len(parts) < 2 or not parts[1].startswith("live"): return None, None, False        # (an exception of the driver itself)
     items = parts[0].split(" ; ")
     live = [int(x) for x in parts[1].split()[1:]] if len(parts) > 1 else []
     return items, live, "LEAK" in parts[2:]
@@ -420,6 +433,14 @@ def cases(tier, seed):
             out.append(c_line("h%s_%s%d" % (tag, {"inplace": "i", "reuse": "r", "params": "p", "recreate": "c"}[which], it), directed_history(r, which)))
     for it in range(60 if not thorough else 400):
         out.append(c_line("h%s_x%d" % (tag, it), random_history(r, r.randint(6, 16))))
+    # the witness of C20_H3_address_keyed_cache_refuted (Capi2Proofs.ac_hist) on the implementation: a 2 x 2 matrix with
+    # another pattern and the same nnz reassembled in place (1, 2) / written to fresh arrays (11, 12)
+    for name, (p2, c2) in (("inplace", (1, 2)), ("fresh", (11, 12))):
+        V = [F(4), F(1), F(3)]
+        steps = [("wi", 1, 4, [1, 3, 4]), ("wi", 2, 4, [1, 2, 2]), ("wv", 3, 3, V), ("wx", 4, 2, [F(1), F(2)]), ("wx", 5, 2, [F(0), F(0)]),
+                 ("sc", 1, 1, 2, 1, 2, 3, None), ("sm", 1, 1, 1, 2, 3, 4, 5),
+                 ("wi", p2, 4, [1, 2, 4]), ("wi", c2, 4, [1, 1, 2]), ("wx", 5, 2, [F(0), F(0)]), ("sm", 1, 1, p2, c2, 3, 4, 5), ("sd", 1)]
+        out.append(c_line("h%s_w%s" % (tag, name), steps))
     assert len(set(l.split(" ", 1)[0] for l in out)) == len(out)
     return out
 
@@ -431,7 +452,7 @@ THEOREM = ("C20_H: every call of a history on the C handle API = the C++ run-tim
 def run(ctx, lines, env):
     """returns (fails, stats dict)"""
     fails = []; st = ctx["stats"]
-    info = dict(histories=len(lines), calls=0, addr_reuse=0, inplace=0)
+    info = dict(histories=len(lines), calls=0, addr_reuse=0, ctor_exc=0)
     def fail(l, impl, model, why):
         st["mismatches"] += 1
         # (a history that merely shared a shard with a crashed one has no output of its own: reported last)
@@ -451,10 +472,10 @@ def run(ctx, lines, env):
             if leak: fail(l, pc, None, "memory lost by the C interface (LeakSanitizer)" + tag); continue
             hc = handle_classes(steps, items)
             if hc is None: fail(l, pc, None, "malformed implementation output" + tag); continue
-            msteps, cur = hc
+            msteps, kept, cur, thrown = hc
             seen = [s[1] for s in msteps if s[0] in ("pc", "ac", "sc")]
-            info["addr_reuse"] += len(seen) - len(set(seen))
-            keep[cid] = (l, steps, items, live, cur, pc)
+            info["addr_reuse"] += len(seen) - len(set(seen)); info["ctor_exc"] += len(thrown)
+            keep[cid] = (l, kept, thrown, live, cur, pc)
             mlines.append(c_line(cid, msteps))
         outm = ctx["run_driver"](ctx["model"], mlines, timeout=900)
         rlines = []
@@ -466,22 +487,22 @@ def run(ctx, lines, env):
             rlines.append("%s rhist 0 %s" % (cid, trace))
             rlines.append("%s~f rhist 1 %s" % (cid, trace))
         outr = ctx["run_driver"](drv, rlines, env_extra=e, shards=12, timeout=900)
-        for cid, (l, steps, items, live, cur, pc, trace, status) in keep.items():
+        for cid, (l, kept, thrown, live, cur, pc, trace, status) in keep.items():
             st["evaluations"] += 1; st["by_op"]["hist" + tag] = st["by_op"].get("hist" + tag, 0) + 1
             # life cycle: live handles at the end
-            want = "OK" + "".join(" %d" % h for h in sorted(cur[s] for s in live))
+            want = "OK" + "".join(" %d" % h for h in sorted([cur[s] for s in live if s in cur] + thrown))
             if status != want or sorted(live) != sorted(cur): fail(l, "live " + want, status, "live handles at the end (Capi2.run vs implementation)" + tag); continue
-            citems = [(s[0], it) for s, it in zip(steps, items) if s[0] in CALLS]
-            other = [it for s, it in zip(steps, items) if s[0] not in CALLS and it != "." and not re.match(r"H\d+$", it)]
+            citems = [(s[0], it) for s, it in kept if s[0] in CALLS]
+            other = [it for s, it in kept if s[0] not in CALLS and it != "." and not re.match(r"H\d+$", it)]
             if other: fail(l, pc, None, "a non-call step failed: %s%s" % (other[0], tag)); continue
             ok = True
             for mode, rid in (("persistent C++ objects", cid), ("a FRESH C++ object for every call (statelessness)", cid + "~f")):
                 pr = outr.get(rid)
-                ritems = pr.split(" ; ") if pr and not pr.startswith(("CRASH", "EXC", "UNSUPPORTED")) else None
+                ritems = pr.split(" ; ") if pr and not pr.startswith(("CRASH", "UNSUPPORTED")) else None
                 st["oracle_checks"] += 1
                 if ritems is None or len(ritems) != len(citems): fail(l, pc, pr, "reference run failed, %s%s" % (mode, tag)); ok = False; break
                 for k, ((op, ci), ri) in enumerate(zip(citems, ritems)):
-                    same = (ci.startswith("H") and ri == "H") if op in ("ac", "sc") else ci == ri
+                    same = (ri == "H") if (op in ("ac", "sc") and ci.startswith("H")) else ci == ri
                     if not same:
                         fail(l, "call %d (%s): %s" % (k, op, ci), "call %d: %s" % (k, ri), "%s%s" % (mode, tag)); ok = False; break
                 if not ok: break
